@@ -1,2 +1,70 @@
-(* C06 placeholder: statements are added below as they are proved. *)
-Require Import Cox.Num.Ops Cox.Model.Inside.
+(* C06 — 2-D point containment.
+   Model: Model/Inside.v (inside_polygon = Polygon.is_inside's winding number with
+   lexicographic L/R tie-breaking; inside_ellipse_box = Ellipse.is_inside as found;
+   crossing_parity / inside_ellipse = exact membership specifications).           *)
+From Coq Require Import Reals QArith Qreals List ZArith Bool Lra.
+Require Import Cox.Num.Ops Cox.Num.Transfer Cox.Geo.Vec Cox.Model.Inside
+  Cox.Thm.InsideThm Cox.Thm.InsideTransfer.
+Import ListNotations.
+
+(* The answer does not depend on which vertex the cycle starts from (any polygon, any point) *)
+Theorem C06_polygon_cyclic_shift :
+  forall (p : vec2 R) (V : list (vec2 R)), inside_polygon Rops p (roll V) = inside_polygon Rops p V.
+Proof. exact inside_polygon_cyclic_shift. Qed.
+Print Assumptions C06_polygon_cyclic_shift.
+
+(* Reversing the vertex order negates the turn sum ... *)
+Theorem C06_polygon_reverse_negates :
+  forall (p : vec2 R) (V : list (vec2 R)), turn_sum Rops p (rev V) = (- turn_sum Rops p V)%Z.
+Proof. exact turn_sum_reverse. Qed.
+Print Assumptions C06_polygon_reverse_negates.
+
+(* ... hence containment is irrespective of vertex orientation whenever the turn sum is even
+   (partial: evenness for closed cycles and off-boundary points is checked at run time by the
+   harness on every judged point, not proved) *)
+Theorem C06_polygon_orientation_free_partial :
+  forall (p : vec2 R) (V : list (vec2 R)), Z.even (turn_sum Rops p V) = true ->
+    inside_polygon Rops p (rev V) = inside_polygon Rops p V.
+Proof. exact inside_polygon_reverse. Qed.
+Print Assumptions C06_polygon_orientation_free_partial.
+
+(* executable model = real model on the embedded input *)
+Theorem C06_polygon_transfer :
+  forall p V, inside_polygon Qops p V = inside_polygon Rops (Q2R2 p) (map Q2R2 V).
+Proof. exact inside_polygon_transfer. Qed.
+Print Assumptions C06_polygon_transfer.
+
+(* Circle: norm <= r is the quadratic membership test *)
+Theorem C06_circle_norm_test :
+  forall x y z r : R, (0 <= r)%R ->
+    (sqrt (x * x + y * y + z * z) <= r <-> x * x + y * y + z * z <= r * r)%R.
+Proof. exact norm_le_iff_sumsq. Qed.
+Print Assumptions C06_circle_norm_test.
+
+(* Ellipse.is_inside as found is NOT membership: refuted by a computed witness *)
+Theorem C06_ellipse_is_inside_refuted :
+  exists (c : vec2 Q) (a b : Q) (p : vec2 Q),
+    inside_ellipse_box Qops c a b p = true /\ inside_ellipse Qops c a b p = false.
+Proof. exists (0, 0)%Q, 1%Q, 2%Q, (-100, 0)%Q. vm_compute. split; reflexivity. Qed.
+Print Assumptions C06_ellipse_is_inside_refuted.
+
+(* ... and correct on the sub-domain where the box and the ellipse agree: every point of the
+   ellipse passes the box test (the code never rejects a member) *)
+Theorem C06_ellipse_box_complete_partial :
+  forall (c : vec2 R) (a b : R) (p : vec2 R), (0 < a)%R -> (0 < b)%R ->
+    inside_ellipse Rops c a b p = true -> inside_ellipse_box Rops c a b p = true.
+Proof.
+  intros [cx cy] a b [x y] Ha Hb. unfold inside_ellipse, inside_ellipse_box, osq, px, py.
+  cbn [oleb oadd osub odiv omul o1 Rops fst snd]. rewrite Rleb_true, andb_true_iff, !Rleb_true.
+  set (u := ((x - cx) / a)%R). set (v := ((y - cy) / b)%R). intros H. split; nra.
+Qed.
+Print Assumptions C06_ellipse_box_complete_partial.
+
+(* non-vacuity / sanity: a concave (arrow) polygon, a point in the notch, a point inside, and a
+   point sharing its x coordinate with a vertex *)
+Example C06_arrow :
+  let V := [(0,0); (4,0); (4,4); (2,1); (0,4)]%Q in
+  inside_polygon Qops (2, 3)%Q V = false /\ inside_polygon Qops (1, 1)%Q V = true
+  /\ inside_polygon Qops (2, 1 # 2)%Q V = true /\ crossing_parity Qops (2, 1 # 2)%Q V = true
+  /\ Z.even (turn_sum Qops (2, 1 # 2)%Q V) = true.
+Proof. vm_compute. repeat split; reflexivity. Qed.
